@@ -13,6 +13,7 @@ import (
 	"github.com/f1bonacc1/process-compose/src/api"
 	"github.com/f1bonacc1/process-compose/src/app"
 	"github.com/f1bonacc1/process-compose/src/client"
+	"github.com/gin-gonic/gin"
 
 	"verifrt/simlog"
 	"verifrt/simsync"
@@ -33,6 +34,7 @@ func (s *simTransport) RoundTrip(req *http.Request) (*http.Response, error) {
 
 // restSetup builds the REST server over the runner and the bundled client over it.
 func (rc *runCtx) restSetup() {
+	gin.SetMode(gin.ReleaseMode)
 	eng := api.InitRoutes(false, api.NewPcApi(rc.runner))
 	rc.eng = eng
 	rc.rest = client.VerifNewClient(&simTransport{eng}, 1000)
